@@ -137,7 +137,13 @@ ssize_t write(int fd, const void *buf, size_t n)
 		errno = planerr();
 		return -1;
 	}
-	if (plan_k == seqno && !strcmp(plan_kind, "SHORT") && n > 1) {
+	/* SHORTERR: this write is cut short and the retry of the rest fails (disk full after partial progress) */
+	if (plan_k + 1 == seqno && !strcmp(plan_kind, "SHORTERR")) {
+		logrec("write", fd, n, -1, ENOSPC);
+		errno = ENOSPC;
+		return -1;
+	}
+	if (plan_k == seqno && (!strcmp(plan_kind, "SHORT") || !strcmp(plan_kind, "SHORTERR")) && n > 1) {
 		size_t m = plan_n > 0 && (size_t) plan_n < n ? (size_t) plan_n : n / 2;
 		r = rwrite(fd, buf, m);
 		logrec("write", fd, n, r, 0);
